@@ -192,12 +192,20 @@ func run(c *core.Ctx, idx int) {
 				nearPole = true
 			}
 		}
-		// longitude in the partner's frame; keep all frames inside (-180, 180)
+		// longitude in the partner's frame, brought back into (-180, 180] when the difference of
+		// the prime meridians carries it across the antimeridian (the position is the same)
 		lg := lon
 		if partner != "same_datum" { // every other partner counts its longitudes from Greenwich
 			lg = lon + d.PMDeg
+			if lg > 180 {
+				lg -= 360
+				c.Count("position.across_the_antimeridian_of_the_partner_frame")
+			} else if lg <= -180 {
+				lg += 360
+				c.Count("position.across_the_antimeridian_of_the_partner_frame")
+			}
 		}
-		if math.Abs(lon) > 179.5 || math.Abs(lg) > 179.5 || math.Abs(lon+d.PMDeg) > 179.5 {
+		if math.Abs(lon) > 179.5 || math.Abs(lg) > 179.5 {
 			c.Count("skipped.longitude_wrap")
 			continue
 		}
